@@ -210,6 +210,9 @@ def build_files(exe, seed, tier):
 
 
 def replay_case(case):
+    if case.get("inproc"):
+        from props import _inproc
+        return _inproc.replay(case)
     exe = core.build("rel")
     shim = core.tool("iofault.so")
     if case.get("data_hex"):
@@ -242,15 +245,12 @@ def run(tier, seed):
     for f in fails:
         f["seed"], f["tier"] = seed, tier
     extra = {}
-    try:
-        from props import _inproc
-        ip = _inproc.run_target("pbt_decode", tier, seed)
-        extra["inproc"] = ip["summary"]
-        stats.evaluations += ip["evaluations"]
-        stats.nontrivial |= ip["nontrivial"]
-        fails = fails + ip["fails"]
-    except ImportError:
-        pass
+    # in-process: retrieve() resumed after every single 32-bit input word and emit() called with 1-byte ... 900000-byte
+    # buffers (every NEED() site, every emitter state) versus one-piece decoding, on generated valid files and on files
+    # with one catalogue defect
+    from props import _inproc
+    _inproc.add(stats, fails, "decode_valid", seed, 12000 if tier == "quick" else 1500000)
+    _inproc.add(stats, fails, "decode_defect", seed, 6000 if tier == "quick" else 500000)
     oc = core.conclude(PID, fails, replay_case, confirm_runs=4)
     core.write_evidence(PID, tier, seed, "exploration", stats, RULE, time.time() - t0,
                         violations=len(oc.violations), extra=extra,
